@@ -5,7 +5,7 @@
                                      new_status_report is unimplemented!() there)
    <bundle> as in Run/BundleIO.v; the generator only uses bundles the harness can build (version 7, u64 fields). *)
 From Coq Require Import Strings.String.
-From BP7 Require Import Base.Prelude Base.Decimal Model.Types Model.EidText Model.BundleId Run.Proto Run.BundleIO.
+From BP7 Require Import Base.Prelude Base.Decimal Model.Types Model.EidText Model.BundleId Model.AdminRecord Run.Proto Run.BundleIO.
 
 Definition run_id (args : list tok) : list byte :=
   match parse_bundle args with
@@ -38,5 +38,19 @@ Definition run_idref (args : list tok) : list byte :=
       else bad_case
     | _, _, _ => bad_case
     end
+  | _ => bad_case
+  end.
+
+(* SRREF x<administrative record bytes> -> OK x<refbundle()> of the DECODED status report | OTHER (not a status report) | ERR
+   (the bundle a received status report refers to: fragment offset and length come from the wire here) *)
+Definition run_srref (args : list tok) : list byte :=
+  match args with
+  | [t] => match get_bytes t with
+           | Some bs => match admin_from_bytes bs with
+                        | Ok (BundleStatusReport sr) =>
+                            join [S_ "OK"; show_bytes (id_refbundle (mk_id_sr (sr_src sr) (sr_time sr) (sr_seq sr) (sr_frag_off sr) (sr_frag_len sr)))]
+                        | Ok _ => S_ "OTHER"
+                        | Err _ => S_ "ERR" | Panic _ => S_ "PANIC" end
+           | None => bad_case end
   | _ => bad_case
   end.
